@@ -24,7 +24,7 @@ from vlib.front import unparse, dotted, const_value, AnchorMissing
 
 M = 'phylib/io/model.py'
 TR = 'phylib/io/traces.py'
-FLOOR = 38
+FLOOR = 29
 EXPLANATION = ('fx engine: a context-sensitive abstract interpretation of the whole call tree of TemplateModel.__init__ (paths as root + name '
                'pattern, arrays with their source file and map mode, objects with fields) collects every may-effect on the file system '
                'with its call chain and guards; the set is compared with the whitelist of the property. Loader name tables, unit '
@@ -162,7 +162,7 @@ def t1_t2_names(ctx):
         fi = repo.lookup_method(cls, lname)
         if fi is None:
             raise AnchorMissing('TemplateModel.%s' % lname)
-        calls = [c for c in fi.calls() if q.method_name(c) == '_find_path']
+        calls = [c for f_ in repo.transparent_closure(fi) for c in f_.calls() if q.method_name(c) == '_find_path']
         got = [tuple(const_value(a) for a in c.args) for c in calls]
         for g in groups:
             hit = [x for x in got if set(x) == set(g)]
@@ -194,7 +194,7 @@ def t1_t2_names(ctx):
                                       'the intended fallback file is never found' % (sorted(bad), unparse(ifn.test)))
     # spike times files
     fi = repo.lookup_method(cls, '_load_spike_samples')
-    txt = ast.unparse(fi.node)
+    txt = ' '.join(ast.unparse(f_.node) for f_ in repo.transparent_closure(fi))
     for nm in ("'spike_times.npy'", "'spikes.times*.npy'", "'spikes.samples*.npy'"):
         ctx.check(nm in txt, 'C04.T1', fi, nm, '_load_spike_samples reads %s' % nm, '_load_spike_samples no longer reads %s' % nm)
 
@@ -320,6 +320,14 @@ def d1_defaults(ctx):
     mm = ra.params[1] if len(ra.params) > 1 else 'mmap_mode'
     ifs = [i for i in ra.nodes(ast.If) if q.simple_compare(i.test) and unparse(q.simple_compare(i.test)[0]) == mm and
            q.simple_compare(i.test)[1] == 'is' and const_value(q.simple_compare(i.test)[2]) is None]
+    if not ifs:
+        # early-exit form: `if mmap_mode is not None: return out` followed by the scrub on the rest of the body
+        for k_, st_ in enumerate(ra.body()):
+            if isinstance(st_, ast.If) and Pat().m('%s is not None' % mm, st_.test) and st_.body and isinstance(st_.body[-1], ast.Return) and not st_.orelse:
+                rest = ast.If(test=ast.parse('%s is None' % mm, mode='eval').body, body=ra.body()[k_ + 1:], orelse=[])
+                ast.copy_location(rest, st_)
+                ast.fix_missing_locations(rest)
+                ifs = [rest]
     ok = False
     scrubbed = set()
     nan_to_num_inf = None
@@ -328,7 +336,13 @@ def d1_defaults(ctx):
         for f in [n for n in ast.walk(body) if isinstance(n, ast.For)]:
             it = f.iter
             if isinstance(it, (ast.Tuple, ast.List)):
-                scrubbed |= {const_value(e) for e in it.elts}
+                scrubbed |= {const_value(e) for e in it.elts if isinstance(const_value(e), str)}
+        # predicates referenced without being called on the spot (`for label, pred in (('nan', np.isnan), ('inf', np.isinf))`)
+        for n_ in ast.walk(body):
+            if isinstance(n_, ast.Attribute) and dotted(n_) in ('np.isnan', 'np.isinf', 'numpy.isnan', 'numpy.isinf'):
+                scrubbed.add(dotted(n_).split('.is')[-1])
+            if isinstance(n_, ast.Attribute) and dotted(n_) in ('np.isfinite', 'numpy.isfinite'):
+                scrubbed |= {'nan', 'inf'}
         for c in [n for n in ast.walk(body) if isinstance(n, ast.Call)]:
             d = dotted(c.func) or ''
             if d in ('np.isnan', 'np.isinf'):
@@ -356,7 +370,11 @@ def d1_defaults(ctx):
         ok = {'nan', 'inf'} <= scrubbed and zero
     ctx.check(bool(ifs), 'C04.D1', ra, ifs[0].test if ifs else 'read_array', 'the scrub is applied iff the array is fully loaded (mmap_mode is None)',
               'NaN/inf scrubbing is not conditioned on `mmap_mode is None`')
-    ctx.check(ok, 'C04.D1', ra, (nan_to_num_inf if nan_to_num_inf is not None and not ok else (ifs[0] if ifs else 'read_array')), 'both NaN and inf entries of fully loaded arrays are replaced by zero',
+    scrubbed &= {'nan', 'inf'}
+    if not ok and not scrubbed and nan_to_num_inf is None:
+        ctx.undecided('C04.D1', ra, 'how NaN / inf entries of fully loaded arrays are replaced was not recognised')
+    else:
+      ctx.check(ok, 'C04.D1', ra, (nan_to_num_inf if nan_to_num_inf is not None and not ok else (ifs[0] if ifs else 'read_array')), 'both NaN and inf entries of fully loaded arrays are replaced by zero',
               ('np.nan_to_num without posinf=0, neginf=0 replaces +-inf by the largest / smallest finite value of the dtype, not by zero' if nan_to_num_inf is not None and 'nan' in scrubbed
                else 'fully loaded arrays are scrubbed of %s only (NaN and inf must both become 0)' % sorted(scrubbed)))
     ld = [c for c in ra.calls() if dotted(c.func) == 'np.load']
